@@ -345,6 +345,14 @@ def generate(ctx, escalate=False):
             f = e.split(":")
             if len(f) == 3 and f[0] != cfg.get("sni") and f[2] != "-":
                 out.append("dtls " + " ".join(list(cred[1]) + ["pre=%s:=:%s" % (f[2], f[0]), "q=C"]))
+    # ICMP errors reported to the client session (coap_session_disconnected_lkd(COAP_NACK_ICMP_ISSUE): advisory, touches neither
+    # the delay queue nor the state) while requests are queued behind the handshake; not in block mode (the lg_crcv request IS
+    # reported there: Props/C19.lean icmp_notification_is_extra)
+    icmps = ["0", "0x2", "1", "2x3", "3", "0x4", "1x2"]
+    for k, cred in enumerate(CREDS):
+        for j, q in enumerate(["C", "CC", "NC", "CNC"] if ctx.thorough() else [["C", "CC", "NC", "CNC"][k % 4]]):
+            out.append("dtls " + " ".join(list(cred[1]) + ["q=" + q, "icmp=" + icmps[(k + j) % len(icmps)]]))
+        out.append("dtls " + " ".join(list(cred[1]) + ["q=C", "icmp=" + icmps[(k + 3) % len(icmps)], "rel=%d" % [2, 6, 12][k % 3]]))
     n = 40000 if ctx.thorough() else 3000
     if escalate:
         n *= 2
@@ -428,7 +436,7 @@ def phases(inp, isegs, expect_all):
     if [g[0] for g in groups] != ["p"] * len(pres) + ["c"]:
         raise ValueError("client sessions seen %s, expected %d earlier ones and the main one" % ([g[0] for g in groups], len(pres)))
     out = []
-    base = [w for w in words if w.split("=")[0] not in ("pre", "q", "f", "inj", "rel", "idle")]
+    base = [w for w in words if w.split("=")[0] not in ("pre", "q", "f", "inj", "rel", "idle", "icmp")]
     main = dict(w.split("=", 1) for w in base)
     for (k, i, sn), g, e in zip(pres, groups, exp_pre):
         w = [x for x in base if x.split("=")[0] not in ("ck", "ci", "sni")]
